@@ -462,6 +462,8 @@ def tpl_closed_form(ctx, cls, low):
         rho = (2 * H / alpha) * (pu * E(lup) - pl * E(llow)) / (pu - pl)
     ctx.ensure("correlation=documented", ctx.eq(mod.correlation(r), rho))
     ctx.ensure("variogram=var*(1-rho)+nugget", ctx.eq(mod.variogram(r), mod.var * (1 - rho) + n))
+    # first clause of the statement, for the classes that define BOTH functions themselves
+    ctx.ensure("correlation(r)=cor(rescale*r/len_scale)", ctx.eq(mod.cor(s * r / l), rho))
     # sigma^2 = C (l_up^2H - l_low^2H) / (2H): the variance follows the intensity C = var_raw
     ctx.ensure("var=C*(lup^2H-llow^2H)/2H",
                ctx.eq(mod.var, mod.var_raw * (m.pow(lup, 2 * H) - (m.pow(llow, 2 * H) if low != "zero" else 0)) / (2 * H)))
@@ -547,3 +549,24 @@ def percentile(ctx):
 # dispatch inside exp_int / inc_gamma (the contract E(s, x) used above is only as good as it)
 from contracts import special_fn  # noqa: E402
 special_fn.register(P)
+
+
+# --- the numerically computed integral scale (scipy quad) of the compact-support models at every length scale -------
+COMPACT_I = {"Linear": 0.5, "Spherical": 0.375, "Cubic": 1 - 7 / 3 + 35 / 16 - 7 / 12 + 3 / 32}
+
+
+@contract(P, "CovModel.calc_integral_scale[quadrature]/compact-support-models-at-every-length-scale",
+          params=[{"cls": c, "len_scale": l} for c in COMPACT_I for l in (1.0, 1e2, 1e4, 1e5, 1e6)],
+          functions=["covmodel/base.py:CovModel.calc_integral_scale"],
+          bounded="native run: three compact-support classes x five length scales (metre-sized coordinates give length "
+                  "scales of 1e4 .. 1e6); reference: closed-form integral of the documented polynomial; tolerance 1e-6 relative")
+def compact_integral_scale(ctx, cls, len_scale):
+    """'the reported integral scale is the integral of the correlation over all lags' -- for models without a closed
+    form the value comes from scipy.integrate.quad over [0, inf): bounded stand-in for that numerical step"""
+    with symrun.native():
+        mod = getattr(gs, cls)(dim=1, len_scale=len_scale)
+        got = float(mod.integral_scale)
+        want = COMPACT_I[cls] * len_scale / float(mod.rescale)
+    if ctx.mode == "conc":
+        ctx.results["got/want"] = repr((got, want))
+    ctx.ensure("integral_scale=closed-form-integral", abs(got - want) <= 1e-6 * want)
